@@ -330,14 +330,15 @@ def exec_scenario(sc, wd, plan=None, keep=False, real_lli=False, restart=False, 
     env = sim_env(env, entropy=sc.get("entropy", 1), plan=plan, order="child_first" if order == "child_first" else None,
                   trace=trace_path, clock=(10**12, 1000), pid=4242)
     stdout_kind = sc.get("stdout_kind", "pipe")
+    argv = [a.replace("{WD}", wd) for a in argv_of(sc)]     # absolute input paths are written {WD}/... in scenarios
     if stdout_kind == "pipe":
-        r = run_proc(argv_of(sc), wd, env)
+        r = run_proc(argv, wd, env)
     else:
         # real-OS reporting faults: stdout is /dev/full (every write ENOSPC) or closed
-        r = run_proc(argv_of(sc), wd, env, stdout_kind=stdout_kind)
+        r = run_proc(argv, wd, env, stdout_kind=stdout_kind)
     trace = read_trace(trace_path)
     obs = {"status": r.status(), "rc": r.rc, "sig": r.sig, "timeout": r.timeout, "out": r.out, "err": r.err, "trace": trace,
-           "artefacts": {}, "marker": [], "stdin": {}}
+           "artefacts": {}, "marker": [], "stdin": {}, "wd": wd}
     if sc["out_dir"]:
         od = os.path.join(wd, sc["out_dir"])
         if os.path.isdir(od):
@@ -525,7 +526,7 @@ def judge(sc, obs, census, plan_kind, benign, self_census=False):
     if rc == 101 and not stdio_failed:
         viol.append(("cli_panic", "penne panicked: %s" % obs["err"].decode(errors="replace")[-300:]))
     if not stdio_failed:
-        if expect_zero and not ok_exit:
+        if expect_zero and not ok_exit and not (sc.get("may_refuse") and rc == 1 and obs["err"].strip()):
             viol.append(("false_failure", "model expects success (%s) but exit is %s: %s" % (why, obs["status"], obs["err"].decode(errors="replace")[-300:])))
         if not expect_zero and ok_exit:
             viol.append(("silent_failure", "exit 0 although %s" % why))
@@ -537,6 +538,15 @@ def judge(sc, obs, census, plan_kind, benign, self_census=False):
             for m in sc["modules"]:
                 rel = artefact_rel(m)
                 data = obs["artefacts"].get(rel)
+                if sc.get("locate_by_module_id"):
+                    # where exactly below the out-dir is not prescribed for such inputs:
+                    # any artefact there that carries this module's IR will do
+                    mid = b"; ModuleID = '%s'" % os.fsencode(m.replace("{WD}", obs.get("wd", ""))).decode("utf-8", "replace").encode()
+                    hits = [k for k, v in sorted(obs["artefacts"].items()) if v.startswith(mid + b"\n")]
+                    if not hits:
+                        viol.append(("artefact_missing", "exit 0 but no artefact below %s carries the IR of %s (artefacts: %s)" %
+                                     (sc["out_dir"], m, sorted(k.replace(obs.get("wd", "\0").lstrip("/"), "{WD}") for k in obs["artefacts"]))))
+                    continue
                 if data is None:
                     viol.append(("artefact_missing", "exit 0 but %s/%s does not exist" % (sc["out_dir"], rel)))
                 elif census is not None and census["rc"] == 0 and data != census.get("artefacts_ref", census["artefacts"]).get(rel):
@@ -759,7 +769,8 @@ def script_grid():
 
 FS_VARIANTS = ["artefact_is_directory", "artefact_symlink_to_devfull", "out_dir_through_regular_file", "source_is_directory",
                "source_symlink_loop", "stdout_devfull", "stdout_closed", "config_is_directory",
-               "silent_stdout_devfull", "silent_verbose_stdout_devfull", "silent_stdout_closed"]
+               "silent_stdout_devfull", "silent_verbose_stdout_devfull", "silent_stdout_closed",
+               "absolute_input", "colliding_artefact_names"]
 
 
 def _fs_variant_job(args):
@@ -776,7 +787,7 @@ def _fs_variant_job(args):
     if variant.startswith("silent_"):
         force["silent"] = True
         force["silent_and_verbose"] = "verbose" in variant
-    sc = make_scenario(rng, sub, "valid_multi", force)
+    sc = make_scenario(rng, sub, "valid_single" if variant == "absolute_input" else "valid_multi", force)
     sc["name"] = "fs:%s:%s" % (variant, sub)
     first = artefact_rel(sc["modules"][0])
     expect_fail = True
@@ -808,6 +819,22 @@ def _fs_variant_job(args):
         sc["pre_dirs"].append("penne.toml")
         sc["opts"] += ["--config", "penne.toml"]
         sc["config_ok"] = False
+    elif variant == "absolute_input":
+        # the sources are named by absolute paths: the artefacts still belong below the out-dir
+        sc["inputs"] = ["{WD}/" + n for n in sc["inputs"]]
+        sc["modules"] = ["{WD}/" + n for n in sc["modules"]]
+        sc["locate_by_module_id"] = True
+        expect_fail = False
+    elif variant == "colliding_artefact_names":
+        # two sources whose artefact names coincide (`x.pn`, `x.txt`): both artefacts, or a failure
+        # that says so - never success with one module's IR lost
+        prog = pngen.generate(rng, n_funcs=3)
+        sc["files"] = {"x.pn": prog.single_file().encode(), "x.txt": pngen.extra_module(rng).encode()}
+        sc["inputs"] = ["x.pn", "x.txt"] if idx % 2 else ["x.txt", "x.pn"]
+        sc["modules"] = list(sc["inputs"])
+        sc["locate_by_module_id"] = True
+        sc["may_refuse"] = True     # a refusal (exit 1 with a message) is as faithful as two artefacts
+        expect_fail = None
     elif variant.startswith("silent_"):
         # nothing is written to stdout under --silent, so an unwritable stdout
         # changes nothing: success, complete artefacts, the backend ran
